@@ -396,6 +396,10 @@ func (c *Checker) CheckSource(sourceName string, source string) (compiler.Compil
 	c.constantScopesCopyCache = nil
 	// the compiler of the last valid input knows the local variables that live on the stack of the VM
 	prevCompiler := c.compiler
+	// the files imported by a rejected input (including the builtin imports)
+	// are dropped with the rest of its environment, they have to be processed again
+	builtinImportsProcessed := c.AreBuiltinImportsProcessed()
+	astCacheCopy := maps.Clone(c.ASTCache.Map)
 
 	c.Filename = sourceName
 	c.methodBodyChecks = nil
@@ -414,6 +418,8 @@ func (c *Checker) CheckSource(sourceName string, source string) (compiler.Compil
 		c.constantScopes = constantScopesCopy
 		c.methodScopes = methodScopesCopy
 		c.compiler = prevCompiler
+		c.SetBuiltinImportsProcessed(builtinImportsProcessed)
+		c.ASTCache = concurrent.NewMapWithValues(astCacheCopy)
 	}
 
 	if compiler == nil {
